@@ -32,6 +32,35 @@ def run(res):
     cases = [sessioncheck.build_case(rnd, n_events=rnd.choice([25, 40, 60, 90]), chatter=0.03) for _ in range(n)]
     sessioncheck.run_cases(res, cases, owns, 'attribution', theorem='C02_latest_incarnation / C02_creation_exact',
                            nontrivial=reused, kernel_sample=15 if res.tier == 'quick' else 100)
+    # one message that mentions the PREVIOUS holder of an id and, in another argument, creates the NEXT one (arguments are
+    # resolved left to right: a mention to the left of the new id still belongs to the old object, one to the right to the new)
+    import world
+    n3 = 40 if res.tier == 'quick' else 1500
+    tcases = []
+    for _ in range(n3):
+        d, items = world.gen_history(rnd, n_conns=1, n_events=rnd.choice([4, 10, 20]), chatter=0.0, tags=[None])
+        msgs = [it for it in items if it[0] == 'msg']
+        if not msgs:
+            continue
+        base = msgs[-1][2]
+        t = [base['time_us']]
+
+        def mk(iface, oid, name, args, sent=True):
+            t[0] += rnd.choice([100, 1000, 40000])
+            return ('msg', None, dict(base, time_us=t[0], sent=sent, iface=iface, id=oid, name=name, args=args))
+        x = rnd.choice([3000, 3001, 3050])
+        w = 2900
+        extra_items = [mk('my_widget', w, 'poke', [('new', x, 'test_iface')]),
+                       mk('test_iface', x, 'frob', [('int', 1)]),
+                       mk('wl_display', 1, 'delete_id', [('int', x)], sent=False)]
+        mention = ('obj', x, 'test_iface')
+        fresh = ('new', x, 'acme_thing_v2')
+        shape = rnd.choice([[mention, fresh], [fresh, mention], [('int', 7), mention, ('str', 'x'), fresh], [mention, fresh, ('obj', x, 'acme_thing_v2')]])
+        extra_items.append(mk('my_widget', w, 'frob', shape))
+        extra_items.append(mk('acme_thing_v2', x, 'poke', [('obj', x, 'acme_thing_v2')]))
+        tcases.append(sessioncheck.case_from_items(rnd, d, items + extra_items))
+    sessioncheck.run_cases(res, tcases, owns, 'attribution (old and new holder of an id in one message)', theorem='C02_latest_incarnation / C02_creation_exact',
+                           nontrivial=lambda c, m: True, kernel_sample=3)
     # the same attribution in GDB mode, where an address is closed and used again by a NEW connection (often with no other
     # connection's message in between): every mention after the re-open belongs to the new connection's fresh table
     import gdbcheck
